@@ -15,6 +15,7 @@ import (
 	"go/ast"
 	"go/token"
 	"go/types"
+	"os"
 	"sort"
 
 	"golang.org/x/tools/go/cfg"
@@ -490,6 +491,14 @@ func itemIndependent(c *Ctx, rule string, anchors [][3]string) {
 
 // carriedDiag prints every loop-carried scalar of the program (calibration only).
 func carriedDiag(p *Prog) {
+	sh, nsh := shadowFindings(p.live())
+	fmt.Printf("shadow: %d examined\n", nsh)
+	for _, f := range sh {
+		fmt.Printf("shadow %s %s at %s: %s\n", f.kind, f.fn.Key(), p.Pos(f.node), exprString2(f.node))
+	}
+	if os.Getenv("TVC_CARRIED") == "new" {
+		return
+	}
 	rc, nl := rangeCopyStores(p, p.AllFuncs())
 	fmt.Printf("range-copy: %d loops\n", nl)
 	for _, f := range rc {
